@@ -435,7 +435,7 @@ func execC15Null(sc c15CalScenario, text string, res *pbt.Result, ti timeinterva
 	}
 }
 
-const c15CalRule = "one time_interval_spec drawn as data (0-3 ranges per field: times incl. 24:00 and 1-minute ranges; weekdays; days of month positive, negative, mixed and ranges that clamp in short months; months; years 1970-2100; location absent or one of UTC, America/New_York, Europe/Berlin, Australia/Lord_Howe, Asia/Kathmandu, Pacific/Apia, America/Sao_Paulo, Africa/Casablanca), rendered as YAML text with generated quoting / case / names-vs-numbers / flow-vs-block / field order, parsed by yaml.Unmarshal, yaml.UnmarshalStrict and config.Load (all must accept); 24 (thorough 40) instants on the minute grid in 1970-2100: uniform, witnesses of the spec, witnesses with one field moved to a range edge +-1, month ends / 29 Feb / year ends, +-2h around the zone's offset transitions. Oracle: ref.C15Contains (own leap/month-length/weekday arithmetic; only time.In trusted) vs ContainsTime (UTC instant; instant expressed in another zone when the spec names a location; via config.Load) and Intervener.Mutes (instant expressed in an arbitrary zone); same-minute relation (+1..59 s, +59.999999999 s); yaml.Marshal/Unmarshal of the parsed value keeps every verdict. 1 case in 7 carries one injected element instead: must be rejected by all three entry points when the stated validity rules exclude it (start>=end, malformed HH:MM, day 0, negative begin with positive end, unknown names, malformed ranges, unknown location), outcome free (only totality) where statement and docs are silent (reversed ranges, month 13, day 32, '29:-1', 'H:MM'). Explicitly empty lists are not generated here (see C15EmptyField). Non-trivial: no injection, the spec constrains >=2 fields or uses a negative day or a non-UTC location, AND the instants have both verdicts or one of them is a boundary (the reference verdict differs one minute earlier or later)."
+const c15CalRule = "one time_interval_spec drawn as data (0-3 ranges per field: times incl. 24:00 and 1-minute ranges; weekdays; days of month positive, negative, mixed and ranges that clamp in short months; months; years 1970-2100; location absent or one of UTC, America/New_York, Europe/Berlin, Australia/Lord_Howe, Asia/Kathmandu, Pacific/Apia, America/Sao_Paulo, Africa/Casablanca, Atlantic/Azores, Asia/Beirut, Africa/Cairo, America/Havana, America/Asuncion, Asia/Amman, America/Santiago (daylight saving starting at local midnight, in some years on the first or last day of a month)), rendered as YAML text with generated quoting / case / names-vs-numbers / flow-vs-block / field order, parsed by yaml.Unmarshal, yaml.UnmarshalStrict and config.Load (all must accept); 24 (thorough 40) instants on the minute grid in 1970-2100: uniform, witnesses of the spec, witnesses with one field moved to a range edge +-1, month ends / 29 Feb / year ends (half of them in a month whose first or last local midnight does not exist, when the zone has one), +-2h around the zone's offset transitions. Oracle: ref.C15Contains (own leap/month-length/weekday arithmetic; only time.In trusted) vs ContainsTime (UTC instant; instant expressed in another zone when the spec names a location; via config.Load) and Intervener.Mutes (instant expressed in an arbitrary zone); same-minute relation (+1..59 s, +59.999999999 s); yaml.Marshal/Unmarshal of the parsed value keeps every verdict. 1 case in 7 carries one injected element instead: must be rejected by all three entry points when the stated validity rules exclude it (start>=end, malformed HH:MM, day 0, negative begin with positive end, unknown names, malformed ranges, unknown location), outcome free (only totality) where statement and docs are silent (reversed ranges, month 13, day 32, '29:-1', 'H:MM'). Explicitly empty lists are not generated here (see C15EmptyField). Non-trivial: no injection, the spec constrains >=2 fields or uses a negative day or a non-UTC location, AND the instants have both verdicts or one of them is a boundary (the reference verdict differs one minute earlier or later)."
 
 func TestC15Calendar(t *testing.T) {
 	pbt.Run(t, pbt.Spec[c15CalScenario]{
